@@ -235,6 +235,8 @@ def is_eqobj(x):
         return I is not None and I.repo.find_method(x.cls, "__eq__") is not None
     if isinstance(x, (frozenset, tuple)):
         return any(is_eqobj(e) for e in x)
+    if is_z3(x):                   # a symbolic integer / boolean inside a key: equality with another key is decided by the solver
+        return True
     return False
 
 
@@ -263,13 +265,22 @@ def eq_frozenset(items):
     return frozenset(out)
 
 
+_IN_TUPLE = [0]
+
+
 def hashable(k):
     if isinstance(k, (int, str, bool, float, type(None), EnumVal, Obj, Opaque, ClassVal)):
         return k
     if isinstance(k, tuple):
-        return tuple(hashable(x) for x in k)
+        _IN_TUPLE[0] += 1
+        try:
+            return tuple(hashable(x) for x in k)
+        finally:
+            _IN_TUPLE[0] -= 1
     if isinstance(k, frozenset):
         return k
+    if is_z3(k) and _IN_TUPLE[0]:
+        return k                   # kept as a term: canon_key resolves semantic equality by branching before any dict sees it
     raise Unsupported(f"unhashable or symbolic key {type(k).__name__}")
 
 
